@@ -3,7 +3,7 @@
    plus dynamic detection (suite c20, Go race detector).  The property is REFUTED for the object
    fields (the default managers publish pointers that handlers mutate) and holds for the maps.
    Statements only; proofs in Proofs/C20Proofs.v, model in Model/Access.v. *)
-From Verif Require Import Base Scope Types Prog Pop Token Authorize System Config Access AccessOwn C20Proofs C20OwnProofs C20OwnGeneral Race.
+From Verif Require Import Base Scope Types Prog Pop Token Authorize System Config Access AccessOwn AccessCfg C20Proofs C20OwnProofs C20OwnGeneral C20CfgProofs Race.
 Local Open Scope N_scope.
 
 (* Every access a handler program performs (any program over the storage calls, any store, any
@@ -197,6 +197,66 @@ Theorem client_cache_races : forall i,
     ["pkg/goidc.(*Client).FetchPublicJWKS[static-client]"; "pkg/goidc.(*Client).fetchJWKS[static-client]"]%string.
 Proof. intros. split; [apply stored_uri_races|split; [apply static_no_copy_races|apply static_no_copy_sites]]. Qed.
 Print Assumptions client_cache_races.
+
+(* ---- the configuration (Model/AccessCfg.v) ----
+   provider.New builds one *oidc.Configuration that every request reaches through its oidc.Context: the lists of
+   algorithms, methods, scopes ..., the optional functions and the static clients are shared memory with no lock.
+   request_summary puts the configuration reads of an endpoint (transcribed from the Go handlers; discovery and
+   dynamic registration included) next to the storage accesses Access.trace derives from the handler program.
+
+   config_never_written: for EVERY set of jwks_uri clients, world, operation index, clock, endpoint / request and
+   store, every access of the request's summary to a configuration object is a read - no handler writes a
+   configuration object.  This is a statement about the access SUMMARY (in the model the configuration is the world
+   parameter: no constructor of prog can change it, System.step_with hands the same world to every step); that the
+   compiled code makes no other access - an append into the spare capacity of a shared slice
+   (oidc.Context.ClientAuthnSigAlgs), a default assigned through the embedded pointer (ctx.HTTPClientFunc = ...) - is
+   sampled by the race detector: suite c20, phases "wide configuration" and "bare cold start", where such a write is
+   named <site>[config]. *)
+Theorem config_never_written : forall has w n now e st,
+  Forall (fun a => is_cfg (sa_loc a) = true -> sa_write a = false) (request_summary has w n now e st).
+Proof. exact config_never_written_lemma. Qed.
+Print Assumptions config_never_written.
+
+(* hence no two requests - whatever their endpoints, worlds, clocks and stores - race on a configuration object *)
+Theorem config_race_free : forall h1 h2 w1 w2 n1 n2 now1 now2 e1 e2 s1 s2 a b,
+  In a (request_summary h1 w1 n1 now1 e1 s1) -> In b (request_summary h2 w2 n2 now2 e2 s2) ->
+  is_cfg (sa_loc a) = true -> sraces a b = false.
+Proof. exact config_race_free_lemma. Qed.
+Print Assumptions config_race_free.
+
+(* not vacuous: every request to the token endpoint reads both client-assertion algorithm lists
+   (clientutil.extractID -> Context.ClientAuthnSigAlgs), and the storage half of a summary is Access.trace itself *)
+Example config_is_read : forall has w n now g r st,
+  In (cfg_read "internal/token.*" cfg_private_key_jwt_sig_algs) (request_summary has w n now (EpOp (OpToken g r)) st) /\
+  In (cfg_read "internal/token.*" cfg_client_secret_jwt_sig_algs) (request_summary has w n now (EpOp (OpToken g r)) st).
+Proof. exact token_reads_sig_algs. Qed.
+Example config_summary_keeps_the_storage_accesses :
+  map sa_site (filter (fun a => negb (is_cfg (sa_loc a))) (request_summary no_jwks_uri c20_world 5%nat 0%Z (EpOp c20_refresh_op) c20_store))
+  = map ac_site (trace no_jwks_uri (handler c20_world 5%nat 0%Z c20_refresh_op) c20_store) /\
+  existsb ac_write (trace no_jwks_uri (handler c20_world 5%nat 0%Z c20_refresh_op) c20_store) = true.
+Proof. vm_compute. split; reflexivity. Qed.
+
+(* config_signatures_not_predicted: the comparison the case file of suite c20 evaluates (predicted_signature_cfg)
+   predicts NO signature one element of which is qualified [config] (or [wide-burst]), whatever the other element
+   is; on every other signature it is Access.predicted_signature. *)
+Theorem config_signatures_not_predicted : forall a b,
+  (qualified_unpredicted a = true \/ qualified_unpredicted b = true -> predicted_signature_cfg a b = false) /\
+  (qualified_unpredicted a = false -> qualified_unpredicted b = false -> predicted_signature_cfg a b = predicted_signature a b).
+Proof. exact (fun a b => conj (qualified_never_predicted a b) (unqualified_as_before a b)). Qed.
+Print Assumptions config_signatures_not_predicted.
+Example config_signature_examples :
+  (* the two request-time writes the phases were built for *)
+  predicted_signature_cfg "internal/clientutil.*:read" "internal/oidc.Context.ClientAuthnSigAlgs[config]:write" = false /\
+  predicted_signature_cfg "internal/oidc.Context.ClientAuthnSigAlgs[config]:write" "internal/oidc.Context.ClientAuthnSigAlgs[config]:write" = false /\
+  predicted_signature_cfg "internal/oidc.*:read" "internal/oidc.Context.HTTPClient[config]:write" = false /\
+  (* not even against a known writer (Access.predicted_signature would count the reader side of that pair) *)
+  predicted_signature "internal/authorize.authorizeAuthnSession:write" "internal/oidc.Context.HTTPClient[config]:write" = true /\
+  predicted_signature_cfg "internal/authorize.authorizeAuthnSession:write" "internal/oidc.Context.HTTPClient[config]:write" = false /\
+  predicted_signature_cfg "internal/token.*:read" "internal/token.generateRefreshTokenGrant[wide-burst]:write" = false /\
+  (* the known pairs are predicted as before *)
+  predicted_signature_cfg "internal/storage.(*GrantSessionManager).SessionByTokenID.func1:read" "internal/token.updateRefreshTokenGrantSession:write" = true /\
+  predicted_signature_cfg "internal/dcr.update:write" "internal/token.*:read" = true.
+Proof. vm_compute. repeat split. Qed.
 
 (* the signatures these witnesses produce, in the vocabulary of the dynamic check *)
 Example predicted_examples :
